@@ -67,8 +67,9 @@ def meta_of(items):
     return {k: to_py(v) for k, v in items}
 
 
-def populated(hist, kp):
-    key = json.dumps([hist, kp], sort_keys=True)
+def populated(hist, kp, decoys=None):
+    decoys = DECOYS.get(kp, []) if decoys is None else decoys
+    key = json.dumps([hist, kp, decoys], sort_keys=True)
     if key in _cache:
         return _cache[key]
     if len(_cache) > 6:
@@ -114,7 +115,7 @@ def populated(hist, kp):
         for fn in set(os.listdir(d)) - before:
             files[fn] = o
     # decoys: sibling key prefixes in the same bucket must never be listed
-    for dk in DECOYS.get(kp, []):
+    for dk in decoys:
         dc = s3c.S3TapeCassette(bucket, key_prefix=dk, read_only=False)
         for e in hist[:2]:
             fake_s3.CLOCK.set(at(e["ct"]))
@@ -206,7 +207,7 @@ def listing(st, name, case):
 def run_lookup(case):
     if case.get("kind") == "cat":
         return run_cat(case)
-    st = populated(case["hist"], case["kp"])
+    st = populated(case["hist"], case["kp"], case.get("decoys"))
     names = os.listdir(st["dir"])
     obs = {"listdir": [st["files"].get(n, -1) for n in names]}
     for name in ("mem", "file", "s3"):
